@@ -85,7 +85,7 @@ class MinimizerScipyOptimize(MinimizerBase):
 
     @parameter_values.setter
     def parameter_values(self, new_values):
-        self._par_val = np.array(new_values)
+        self._par_val = np.array(new_values, dtype=float)  # not the dtype of the start values: integer defaults truncate later assignments
         self.reset()
 
     @property
